@@ -6,6 +6,7 @@ import (
 	"fmt"
 	"os"
 	"os/exec"
+	"path"
 	"path/filepath"
 	"runtime/debug"
 	"sort"
@@ -38,6 +39,85 @@ func comps(p string) [][]int {
 		return [][]int{}
 	}
 	return vt.P(p)
+}
+
+// resolveTree resolves a component list chroot-style in a model tree (every symlink followed, ".." clamped at the
+// root, absolute targets restart at the root); ok=false on a cycle (fuel) .  The result is the path reached, which need
+// not exist.
+func resolveTree(t model.Tree, parts []string) (string, bool) {
+	cur := []string{}
+	fuel := 40
+	for len(parts) > 0 {
+		p := parts[0]
+		parts = parts[1:]
+		switch p {
+		case "", ".":
+			continue
+		case "..":
+			if len(cur) > 0 {
+				cur = cur[:len(cur)-1]
+			}
+			continue
+		}
+		nxt := strings.Join(append(append([]string{}, cur...), p), "/")
+		if e := t.Find(nxt); e != nil && e.Type == "symlink" {
+			if fuel == 0 {
+				return "", false
+			}
+			fuel--
+			if strings.HasPrefix(e.Link, "/") {
+				cur = []string{}
+			}
+			parts = append(strings.Split(e.Link, "/"), parts...)
+			continue
+		}
+		cur = append(cur, p)
+	}
+	return strings.Join(cur, "/"), true
+}
+
+type expansion struct {
+	P []string
+	W []int // 1-based positions of the components that came from a wildcard
+}
+
+// expandWild enumerates the literal paths a wildcard request stands for: each wildcard component is matched
+// (path.Match, the standard library's glob) against the names in the directory the literal prefix resolves to.
+func expandWild(t model.Tree, req string) []expansion {
+	parts := strings.Split(strings.Trim(req, "/"), "/")
+	cur := []expansion{{}}
+	for i, comp := range parts {
+		var next []expansion
+		for _, x := range cur {
+			if !hasWild(comp) {
+				next = append(next, expansion{append(append([]string{}, x.P...), comp), x.W})
+				continue
+			}
+			dir, ok := resolveTree(t, x.P)
+			if !ok {
+				continue
+			}
+			if dir != "" {
+				if e := t.Find(dir); e == nil || e.Type != "dir" {
+					continue
+				}
+			}
+			for _, e := range t {
+				parent, name := path.Split(e.Path)
+				if strings.TrimSuffix(parent, "/") != dir {
+					continue
+				}
+				if m, err := path.Match(comp, name); err == nil && m {
+					next = append(next, expansion{append(append([]string{}, x.P...), name), append(append([]int{}, x.W...), i+1)})
+				}
+			}
+		}
+		cur = next
+		if len(cur) > 16 {
+			cur = cur[:16]
+		}
+	}
+	return cur
 }
 
 // followChild: args <dir>; reads <dir>/cases.json, appends one event per finished case to
@@ -92,6 +172,18 @@ func followChild(args []string) {
 		for i, q := range fc.Reqs {
 			reqs[i] = vt.Ev{"p": comps(q), "wild": hasWild(q), "s": q}
 		}
+		exps := []vt.Ev{}
+		for _, q := range fc.Reqs {
+			if hasWild(q) {
+				for _, x := range expandWild(snap, q) {
+					w := x.W
+					if w == nil {
+						w = []int{}
+					}
+					exps = append(exps, vt.Ev{"p": vt.P(strings.Join(x.P, "/")), "w": w})
+				}
+			}
+		}
 		result := [][][]int{}
 		resWild := []bool{}
 		for _, x := range r.l {
@@ -100,7 +192,7 @@ func followChild(args []string) {
 		}
 		ev := vt.Ev{"ev": "Follow", "case": fc.Case, "tree": snap.Ev(), "reqs": reqs, "result": result, "resWild": resWild,
 			"resultStr": nonNil(r.l), "isNil": r.l == nil && !hang && r.err == nil, "hang": hang, "err": r.err != nil,
-			"byteSorted": sort.StringsAreSorted(r.l), "synced": false, "syncFailed": false, "dst": []vt.Ev{}, "input": vt.Opaque(fc)}
+			"byteSorted": sort.StringsAreSorted(r.l), "synced": false, "syncFailed": false, "dst": []vt.Ev{}, "input": vt.Opaque(fc), "exps": exps}
 		if r.err != nil {
 			ev["errText"] = trunc(r.err.Error())
 		}
@@ -140,6 +232,9 @@ func followChild(args []string) {
 
 func followTree(c *Ctx) model.Tree {
 	names := []string{"a", "b", "l", "m", "a-b", "d"}
+	if c.Rand.Intn(6) == 0 {
+		names = append(names, "l[1]", "l?", "d1") // entry names that are themselves glob patterns
+	}
 	targets := []string{"a", "b", "/a", "..", "../..", "a/b", "l", "m", "/", "nonexistent", "../b", "d/a", "./a", "/d/l", "a-b", "m/x"}
 	var t model.Tree
 	used := map[string]bool{}
@@ -196,6 +291,22 @@ func Follow(c *Ctx) error {
 			{Tree: model.Tree{{Path: "up", Type: "symlink", Link: "..", Perm: 0777}, {Path: "-name", Type: "dir", Perm: 0755}}, Reqs: []string{"up", "-name"}},
 			{Tree: model.Tree{{Path: "sub", Type: "dir", Perm: 0755}, {Path: "sub/up", Type: "symlink", Link: "/", Perm: 0777}, {Path: "data", Type: "dir", Perm: 0755}}, Reqs: []string{"*.conf", "sub/up"}},
 		}
+		// wildcards: in a middle component over a symlink to a directory, over a plain directory with a link further down
+		// (the recorded finding), over entry names that are themselves glob patterns
+		fl := func(p string) model.Entry { e := newFile(c.Rand, genOpts{}); e.Path = p; return e }
+		dr := func(p string) model.Entry { return model.Entry{Path: p, Type: "dir", Perm: 0755} }
+		ln := func(p, to string) model.Entry { return model.Entry{Path: p, Type: "symlink", Link: to, Perm: 0777} }
+		fixed = append(fixed,
+			followCase{Tree: model.Tree{ln("dl", "real"), dr("real"), fl("real/file")}, Reqs: []string{"d*/file"}},
+			followCase{Tree: model.Tree{dr("dir"), ln("dir/l[1]", "../foo/target"), dr("foo"), fl("foo/target")}, Reqs: []string{"dir/l*"}},
+			followCase{Tree: model.Tree{dr("dir"), ln("dir/l?", "../t"), ln("dir/l*", "/t"), fl("t")}, Reqs: []string{"dir/l*"}},
+			followCase{Tree: model.Tree{fl("a"), dr("a-b"), ln("a-b/a-b", "/a")}, Reqs: []string{"*/*"}},
+			followCase{Tree: model.Tree{dr("d1"), ln("d1/l", "/t"), fl("t")}, Reqs: []string{"d*/l"}},
+			followCase{Tree: model.Tree{dr("d1"), fl("d1/x"), ln("d2", "d1")}, Reqs: []string{"d?/x"}},
+		)
+		for i := range fixed {
+			fixed[i].Tree.Sort()
+		}
 		for i := range fixed {
 			for k := range fixed[i].Tree {
 				fixed[i].Tree[k].Mtime = uniqueMtime()
@@ -213,7 +324,7 @@ func Follow(c *Ctx) error {
 				var q string
 				switch c.Rand.Intn(8) {
 				case 0:
-					q = []string{"*", "l/*", "*/b", "a/*", "d/*/a"}[c.Rand.Intn(5)]
+					q = []string{"*", "l/*", "*/b", "a/*", "d/*/a", "d*/a", "l*", "d/l*", "?/b", "a/*/a", "m*/x", "*/*", "d*/l", "[al]/a"}[c.Rand.Intn(14)]
 				case 1:
 					// requests are clean paths: the statement quantifies ".." over symlink targets, not over requests
 					q = []string{"nonexistent", "a/nonexistent/x", "/", "b/nonexistent", "."}[c.Rand.Intn(5)]
@@ -315,7 +426,7 @@ func Follow(c *Ctx) error {
 			}
 			e = vt.Ev{"ev": "Follow", "case": fc.Case, "tree": tt.Ev(), "reqs": reqs, "result": [][][]int{}, "resWild": []bool{}, "resultStr": []string{},
 				"isNil": false, "hang": true, "err": false, "byteSorted": true, "synced": false, "syncFailed": false, "dst": []vt.Ev{},
-				"crash": crashed[fc.Case], "input": vt.Opaque(fc)}
+				"crash": crashed[fc.Case], "input": vt.Opaque(fc), "exps": []vt.Ev{}}
 		}
 		c.Out.Emit(e)
 		nt := false
